@@ -216,6 +216,21 @@ pub struct ICase {
     pub cfg: Cfg,
     pub scope: u8,
     pub steps: Vec<IStep>,
+    /// undo / redo through the async entry points (`undo().await`) instead of the blocking ones
+    #[serde(default)]
+    pub async_api: bool,
+}
+
+/// drives a future that never has to wait (nobody else holds the document)
+pub fn block_on<F: std::future::Future>(f: F) -> F::Output {
+    let mut f = std::pin::pin!(f);
+    let mut cx = std::task::Context::from_waker(std::task::Waker::noop());
+    loop {
+        if let std::task::Poll::Ready(v) = f.as_mut().poll(&mut cx) {
+            return v;
+        }
+        std::thread::yield_now();
+    }
 }
 
 pub struct Isolated;
@@ -237,10 +252,10 @@ impl Prop for Isolated {
             1 => Just(IStep::Reset),
             1 => Just(IStep::Gc),
         ];
-        (cfgs_strategy(1..=1, false), any::<bool>(), 0u8..4, prop::collection::vec(step, 2..=tier.pick(22, 36)))
-            .prop_map(|(mut cfgs, cleanup, scope, steps)| {
+        (cfgs_strategy(1..=1, false), any::<bool>(), 0u8..4, prop::collection::vec(step, 2..=tier.pick(22, 36)), prop::bool::weighted(0.3))
+            .prop_map(|(mut cfgs, cleanup, scope, steps, async_api)| {
                 cfgs[0].cleanup = cleanup;
-                ICase { cfg: cfgs.remove(0), scope, steps }
+                ICase { cfg: cfgs.remove(0), scope, steps, async_api }
             })
             .boxed()
     }
@@ -250,6 +265,9 @@ impl Prop for Isolated {
         let clock = Arc::new(AtomicU64::new(10_000));
         let mut mgr = manager(&clock);
         expand(&mut mgr, &rep, case.scope);
+        if case.async_api {
+            st.hit("cases_through_the_async_entry_points");
+        }
         let mut alloc = Alloc::default();
         // model: dumps after each capture group (groups[0] = initial), redo targets
         let mut groups: Vec<Node> = vec![scope_dump(&rep, case.scope)];
@@ -380,7 +398,7 @@ impl Prop for Isolated {
                     let outside = outside_dump(&rep, case.scope);
                     let stack_dels = stack_deletions(&mgr);
                     let prone = g3_prone(&rep, &stack_dels);
-                    let ret = mgr.undo_blocking();
+                    let ret = if case.async_api { block_on(mgr.undo()) } else { mgr.undo_blocking() };
                     let after = scope_dump(&rep, case.scope);
                     if ret {
                         // the undoing transaction resets the manager's merge window
@@ -431,7 +449,7 @@ impl Prop for Isolated {
                 IStep::Redo => {
                     let before = scope_dump(&rep, case.scope);
                     let outside = outside_dump(&rep, case.scope);
-                    let ret = mgr.redo_blocking();
+                    let ret = if case.async_api { block_on(mgr.redo()) } else { mgr.redo_blocking() };
                     let after = scope_dump(&rep, case.scope);
                     if ret && after == before {
                         ensure!(redo.last() == Some(&before), "c12/isolated/redo-returned-true", "{}: redo() returned true, nothing visible changed and the last undone step was not an invisible one", when);
@@ -499,6 +517,8 @@ pub enum MStep {
 pub struct MCase {
     pub cfgs: Vec<Cfg>,
     pub steps: Vec<MStep>,
+    #[serde(default)]
+    pub async_api: bool,
 }
 
 pub struct Mixed;
@@ -536,7 +556,9 @@ impl Prop for Mixed {
             4 => Just(MStep::Undo),
             2 => Just(MStep::Redo),
         ];
-        (cfgs_strategy(2..=2, false), prop::collection::vec(step, 3..=tier.pick(22, 36))).prop_map(|(cfgs, steps)| MCase { cfgs, steps }).boxed()
+        (cfgs_strategy(2..=2, false), prop::collection::vec(step, 3..=tier.pick(22, 36)), prop::bool::weighted(0.3))
+            .prop_map(|(cfgs, steps, async_api)| MCase { cfgs, steps, async_api })
+            .boxed()
     }
 
     fn check(&self, case: &MCase, st: &mut CaseStats) -> Result<(), Fail> {
@@ -636,7 +658,12 @@ impl Prop for Mixed {
                 MStep::Undo | MStep::Redo => {
                     let undo = matches!(step, MStep::Undo);
                     let before = visible(&w.reps[0]);
-                    let ret = if undo { mgr.undo_blocking() } else { mgr.redo_blocking() };
+                    let ret = match (undo, case.async_api) {
+                        (true, false) => mgr.undo_blocking(),
+                        (true, true) => block_on(mgr.undo()),
+                        (false, false) => mgr.redo_blocking(),
+                        (false, true) => block_on(mgr.redo()),
+                    };
                     w.register_local(0, vec![]);
                     let after = visible(&w.reps[0]);
                     if undo && ret {
